@@ -263,6 +263,8 @@ static FILE* sim_fopen(const char* path, const char* mode, bool is64) {
             ino = std::make_shared<Inode>();
             ino->id = F.next_inode++;
             ino->had_final_name = !ends_with(path, ".part");
+            // selftest canary: the stub pretends every new output is visible under its final name from the start
+            { static const bool canary = getenv("VERIF_CANARY") && !strcmp(getenv("VERIF_CANARY"), "early-visible"); if (canary) ino->had_final_name = true; }
             F.dir[path] = ino;
         }
     } else {
